@@ -807,7 +807,7 @@ class RF24:
         if self.fifo(True, True):
             return False
         self._ce_pin.value = False
-        if not send_only and (self._in[0] >> 1) < 6:
+        if not send_only and self._in[0] >> 1 & 7 < 6:
             self.flush_rx()
         self.clear_status_flags()
         self.update()  # refresh the cached status (it still shows the flags just cleared)
